@@ -386,7 +386,7 @@ func (c *TermCtx) Eq(a, b *Term) *Term {
 	}
 	if a.S.K == SBV {
 		// injective integer encoding used by the CBOR model
-		if a.Op == OApply && b.Op == OApply && a.Name == "BigEnc" && b.Name == "BigEnc" {
+		if a.Op == OApply && b.Op == OApply && a.Name == b.Name && (a.Name == "BigEnc" || a.Name == "IntEnc64") {
 			return c.Eq(a.Args[0], b.Args[0])
 		}
 		// injective hash model: H(x) = H(y) <=> x = y; digests of different-length inputs differ
